@@ -1,19 +1,28 @@
 #!/bin/bash
 # tools/run_seeded.sh [dir ...] : for every stored seeded change (default: all of seeded/*/), apply it to /repo, run the
-# quick check of its property, restore /repo, and record whether the check reported a violation.  Writes seeded/RESULTS.md.
+# quick check of its property, and (REPLAY=1) re-run the first reported replay file on the changed and on the restored tree;
+# restore /repo.  Writes seeded/RESULTS.md (RESULTS_seed<k>.md when VERIF_SEED=k is set).
 cd "$(dirname "$(readlink -f "$0")")/.."
 git -C /repo status --short | grep -v '^??' && { echo "/repo dirty"; exit 2; }
 DIRS=${@:-$(ls -d seeded/*/ | sort)}
-OUT=seeded/RESULTS.md
-[ $# -eq 0 ] && { echo "# Seeded changes vs. quick checks (written by tools/run_seeded.sh on $(date -u +%F))"; echo; echo "| seed | check | exit | summary line | first VIOLATION line |"; echo "|---|---|---|---|---|"; } > $OUT
+OUT=seeded/RESULTS${VERIF_SEED:+_seed$VERIF_SEED}.md
+[ $# -eq 0 ] && { echo "# Seeded changes vs. quick checks (written by tools/run_seeded.sh on $(date -u +%F)${VERIF_SEED:+, VERIF_SEED=$VERIF_SEED})"; echo; echo "| seed | check | exit | summary line | first VIOLATION line | replay on changed tree (exit) | replay on restored tree (exit) |"; echo "|---|---|---|---|---|---|---|"; } > $OUT
 for d in $DIRS; do
   d=${d%/}; name=$(basename $d); id=${name%%_*}
   [ -f $d/patch.diff ] || continue
-  git -C /repo apply "$PWD/$d/patch.diff" || { echo "| $name | $id | patch does not apply | | |" >> $OUT; continue; }
+  git -C /repo apply "$PWD/$d/patch.diff" || { echo "| $name | $id | patch does not apply | | | | |" >> $OUT; continue; }
   log=$(mktemp)
+  rm -rf replays/$id
   timeout 3000 ./check $id quick > $log 2>&1; rc=$?
+  r1="-"; r0="-"
+  first=$(grep -m1 '^VIOLATION' $log | sed -n 's/.*replay=\([^ ]*\).*/\1/p')
+  if [ -n "$REPLAY" ] && [ -n "$first" ] && ! grep -m1 '^VIOLATION' $log | grep -q no-failing-input-found; then
+    cp "$first" /tmp/replay_under_test.json
+    timeout 1800 ./check $id --replay /tmp/replay_under_test.json > /dev/null 2>&1; r1=$?
+  fi
   git -C /repo checkout -- .
-  echo "| $name | $id | $rc | $(grep "^$id quick" $log | tail -1 | cut -c1-160) | $(grep -m1 '^VIOLATION' $log | sed 's|/verif/replays/||') |" | tee -a $OUT
+  if [ "$r1" != "-" ]; then timeout 1800 ./check $id --replay /tmp/replay_under_test.json > /dev/null 2>&1; r0=$?; fi
+  echo "| $name | $id | $rc | $(grep "^$id quick" $log | tail -1 | cut -c1-160) | $(grep -m1 '^VIOLATION' $log | sed 's|/verif/replays/||') | $r1 | $r0 |" | tee -a $OUT
   rm -f $log; rm -rf replays/*
 done
 git -C /repo status --short | grep -v '^??'
